@@ -242,6 +242,48 @@ def run(ctx: Ctx):
         col.ob("G16", "S5", f"{rel}::{f.qualname}::func-on-this-step's-accepted-sample", ok,
                f"`{u(c)}`: {why}; the post-burn-in average would lag by one step and include the starting point",
                rel, c.lineno, sample=u(c))
+    # each kept step contributes f(b) to the running total exactly once: on every path through one iteration of the sampling loop
+    # the accumulator is updated from this step's value at most once (the first kept step initialises it, the later ones add)
+    if loops and fcalls:
+        loop0 = next((L for L in loops if any(fcalls[0] is x for x in ast.walk(L))), None)
+        # the accumulator: the local the returned value is computed from after the loop
+        accs = set()
+        for r_ in own_nodes(f.node):
+            if isinstance(r_, ast.Return) and r_.value is not None:
+                accs |= {x.id for x in ast.walk(r_.value) if isinstance(x, ast.Name)} | {d.name for d in rdm.derives(r_.value).defs}
+        inloop = {id(x) for x in ast.walk(loop0)} if loop0 is not None else set()
+        stored_in_loop = {t.id for n in own_nodes(f.node) if id(n) in inloop and isinstance(n, (ast.Assign, ast.AugAssign))
+                          for t in (n.targets if isinstance(n, ast.Assign) else [n.target]) if isinstance(t, ast.Name)}
+        # this step's value: names assigned from a self.func(...) call that are not themselves the accumulator
+        fb_names = set()
+        for n in own_nodes(f.node):
+            if isinstance(n, ast.Assign) and any(c is x for c in fcalls for x in ast.walk(n.value)):
+                fb_names |= {t.id for t in n.targets if isinstance(t, ast.Name)}
+        # the accumulator is read after the loop and stored in it; a name that only ever holds f(b) of one step is not it
+        after_loop_reads = {x.id for n in own_nodes(f.node) if loop0 is not None and getattr(n, "lineno", 0) > loop0.end_lineno
+                            for x in ast.walk(n) if isinstance(x, ast.Name) and isinstance(x.ctx, ast.Load)}
+        accs = (accs & stored_in_loop & after_loop_reads)
+        fb_names -= accs
+
+        def _uses_step_value(e):
+            return any(c is x for c in fcalls for x in ast.walk(e)) or any(isinstance(x, ast.Name) and x.id in fb_names for x in ast.walk(e))
+
+        def _ev_acc(st):
+            if isinstance(st, ast.Assign) and len(st.targets) == 1 and isinstance(st.targets[0], ast.Name) and st.targets[0].id in accs \
+                    and _uses_step_value(st.value):
+                return f"ACC({st.targets[0].id})"
+            if isinstance(st, ast.AugAssign) and isinstance(st.target, ast.Name) and st.target.id in accs and _uses_step_value(st.value):
+                return f"ACC({st.target.id})"
+            return None
+        if loop0 is not None and accs:
+            from sa.paths import PathEnumerator
+            ps = PathEnumerator(_ev_acc, keep_all_ifs=True, exc_edges=False).paths(loop0.body)
+            worst = max((sum(1 for l in p.labels() if l.startswith("ACC")) for p in ps), default=0)
+            some = any(any(l.startswith("ACC") for l in p.labels()) for p in ps)
+            col.ob("G16", "S5", f"{rel}::{f.qualname}::each-kept-step-counted-once", some and worst == 1,
+                   f"one iteration of the sampling loop can add this step's value to the running total {worst} times (e.g. initialise it "
+                   f"at the first kept step and then add the same value again): the first kept sample is weighted twice and the "
+                   f"estimate is (2 f_1 + f_2 + ... + f_K) / K", rel, loop0.lineno, sample=dict(paths=len(ps), max_updates=worst))
     # the chain advances with this step's sample and ratio
     # the chain state carried to the next step: (accept-selected sample, its ratio)
     okcarry = False
